@@ -2,6 +2,7 @@ package verifrt
 
 import (
 	"os"
+	"path"
 	"path/filepath"
 	"time"
 	"strings"
@@ -167,6 +168,7 @@ func dmMkdir(path string, perm os.FileMode) error {
 }
 
 func dmRename(oldp, newp string) error {
+	Yield() // disk I/O takes its time: another operation may run while the caller holds whatever it holds
 	o := dir(oldp)
 	if !o.Exists {
 		return NewError("rename: no such file or directory")
@@ -475,6 +477,40 @@ func InstallDirListing() {
 	Override("os.Stat", dmStat)
 	Override("os.SameFile", dmSameFile)
 	Override("path/filepath.Walk", dmWalk)
+	OverrideIfPresent("path/filepath.Glob", dmGlob)
+}
+
+// dmGlob: path/filepath.Glob over the modelled disk. As in the real function the directory part of the
+// pattern is a pattern as well: a directory whose name contains a metacharacter does not match itself.
+func dmGlob(pattern string) ([]string, error) {
+	i := strings.LastIndex(pattern, "/")
+	if i < 0 {
+		return nil, nil
+	}
+	dirPat, filePat := pattern[:i], pattern[i+1:]
+	meta := strings.ContainsAny(dirPat, "*?[\\")
+	var out []string
+	for p, d := range Disk {
+		if d == nil || !d.Exists {
+			continue
+		}
+		j := strings.LastIndex(p, "/")
+		if j < 0 {
+			continue
+		}
+		pd, base := p[:j], p[j+1:]
+		okDir := pd == dirPat
+		if meta {
+			okDir, _ = path.Match(dirPat, pd)
+		}
+		if !okDir {
+			continue
+		}
+		if ok, _ := path.Match(filePat, base); ok {
+			out = append(out, p)
+		}
+	}
+	return out, nil
 }
 
 // ---- iterators ----
